@@ -30,6 +30,8 @@ func runC12(c *Ctx) {
 	ruleCacheWindow(c, "R12.4")
 	ruleStreamCap(c, "R12.5")
 	ruleFreshWorkerPerCallback(c, "R12.6")
+	ruleNoGoroutinePerPartial(c, "R12.7")
+	ruleStreamEndDeregisters(c, "R12.2")
 }
 
 func ruleStreamCallbackDeregisters(c *Ctx, rule string) {
@@ -507,4 +509,126 @@ func hasGoIn(fn *ssa.Function) bool {
 		}
 	})
 	return found
+}
+
+// R12.7: handling one incoming partial starts no goroutine. The number of partials a peer has in flight is bounded by the
+// server's stream limit and the aggregator queue (the handler blocks on the queue); a goroutine per partial removes that
+// bound: every partial is acknowledged at once and parked in memory for as long as the aggregator is busy.
+func ruleNoGoroutinePerPartial(c *Ctx, rule string) {
+	c.ranRules[rule] = true
+	root := c.P.Fn("internal/chain/beacon.(*Handler).ProcessPartialBeacon")
+	if !c.Anchor(rule, "internal/chain/beacon.(*Handler).ProcessPartialBeacon", root != nil) {
+		return
+	}
+	seen := map[*ssa.Function]bool{root: true}
+	work := []*ssa.Function{root}
+	nFn, nGo := 0, 0
+	for len(work) > 0 {
+		fn := work[0]
+		work = work[1:]
+		nFn++
+		forEachInstr(fn, func(_ *ssa.BasicBlock, _ int, in ssa.Instruction) {
+			switch x := in.(type) {
+			case *ssa.Go:
+				nGo++
+				c.Ok(rule, fnShort(fn)+" starts a goroutine while handling a partial", shortPos(c.P, in), false,
+					"reached synchronously from ProcessPartialBeacon: one goroutine per incoming partial is state a peer can grow without bound")
+			case *ssa.Call:
+				callee := x.Common().StaticCallee()
+				if callee == nil || callee.Blocks == nil || seen[callee] || !strings.HasPrefix(fnPkgPath(callee), modPath+"/internal/chain/beacon") {
+					return
+				}
+				seen[callee] = true
+				work = append(work, callee)
+			}
+		})
+		for _, an := range fn.AnonFuncs {
+			if !seen[an] {
+				seen[an] = true
+				work = append(work, an)
+			}
+		}
+	}
+	c.Ok(rule, "the partial-beacon handler starts no goroutine", c.P.Pos(root.Pos()), nGo == 0, fmt.Sprintf("%d function(s) on the synchronous path, %d go statement(s)", nFn, nGo))
+}
+
+// R12.2 (second half): when a stream ends because its context is done, SyncChain itself takes the callback out of the store
+// (the callback only removes itself on a failed send, and it returns before sending once the context is done).
+func ruleStreamEndDeregisters(c *Ctx, rule string) {
+	c.ranRules[rule] = true
+	sc := c.P.Fn("internal/chain/beacon.SyncChain")
+	if sc == nil {
+		return
+	}
+	var add ssa.CallInstruction
+	for _, ci := range callsIn(sc, func(ci ssa.CallInstruction) bool {
+		return ci.Common().IsInvoke() && ci.Common().Method.Name() == "AddCallback"
+	}) {
+		add = ci
+	}
+	if add == nil {
+		return
+	}
+	id := add.Common().Args[0]
+	// the select arm on ctx.Done() after the registration
+	n := 0
+	forEachInstr(sc, func(_ *ssa.BasicBlock, _ int, in ssa.Instruction) {
+		sel, ok := in.(*ssa.Select)
+		if !ok || !dominatesInstr(add.(ssa.Instruction), in) {
+			return
+		}
+		for k, st := range sel.States {
+			dc, isCall := stripConv(st.Chan).(*ssa.Call)
+			if st.Dir != types.RecvOnly || !isCall || !dc.Common().IsInvoke() || dc.Common().Method.Name() != "Done" {
+				continue
+			}
+			n++
+			// the arm's entry edge: index == k
+			var arm *ssa.BasicBlock
+			for _, blk := range sc.Blocks {
+				for i := range blk.Succs {
+					cond, truth, okc := edgeCond(edge{blk, i})
+					if !okc || !truth {
+						continue
+					}
+					b, isB := cond.(*ssa.BinOp)
+					if !isB || b.Op != token.EQL {
+						continue
+					}
+					ex, isEx := b.X.(*ssa.Extract)
+					kk, isK := constInt(b.Y)
+					if isEx && isK && ex.Tuple == ssa.Value(sel) && ex.Index == 0 && int(kk) == k {
+						arm = blk.Succs[i]
+					}
+				}
+			}
+			ok := false
+			if arm != nil {
+				// every return reachable from the arm is preceded by RemoveCallback(id)
+				isRemove := func(b *ssa.BasicBlock) bool {
+					for _, x := range b.Instrs {
+						if call, isC := x.(*ssa.Call); isC && call.Common().IsInvoke() && call.Common().Method.Name() == "RemoveCallback" &&
+							(canonValue(call.Common().Args[0]) == canonValue(id) || pathOf(call.Common().Args[0]) == pathOf(id)) {
+							return true
+						}
+					}
+					return false
+				}
+				ok = true
+				if !isRemove(arm) {
+					escaped := walkFeasible(arm, pctx{}, func(e edge) bool { return isRemove(e.to()) }, func(b *ssa.BasicBlock) bool {
+						if len(b.Instrs) == 0 {
+							return false
+						}
+						_, isRet := b.Instrs[len(b.Instrs)-1].(*ssa.Return)
+						return isRet
+					})
+					ok = !escaped
+				}
+			}
+			c.Ok(rule, "SyncChain deregisters its callback when the stream's context ends", shortPos(c.P, in), ok,
+				"on the ctx.Done() arm every return is preceded by RemoveCallback(own id)")
+		}
+	})
+	c.Floor(rule, "context-done arms after the live callback was registered", n, 1)
 }
